@@ -14,7 +14,7 @@ RULE = ("Hypothesis-generated training lists through the real trainer; the real 
         "(constructed as password_scorer.py does) scores candidates: all training passwords, a sample of guesser output, case / "
         "digit / symbol perturbations of both, generated unrelated strings, e-mail and website strings. Oracle: score p > 0 => the "
         "string is in the map with some probability q, |p-q| <= 1e-9*q; a string in which the e-mail/website detectors find "
-        "something has category e/w and p == 0; scoring the same string again after others returns the identical tuple. "
+        "something has category e/w and p == 0; scoring the same string again after others returns the identical tuple; password_scorer.py run as a subprocess must write exactly the library's tuples. "
         "Non-trivial = p > 0 for a string that is not a training password, or a candidate whose mask/length/structure is absent "
         "from the ruleset (p == 0 although segments exist); distinct = hash of (list, options, candidate).")
 ASSUMPTIONS = ["languages above 40000 guesses are skipped and counted", "a run in which the trainer does not complete is skipped and counted"]
